@@ -23,7 +23,12 @@ SeqEq(obsq, vals) == Len(obsq) = Len(vals) /\ \A i \in 1..Len(vals) : Eq(obsq[i]
 EvOK(e) ==
   /\ e.outcome = "ok"
   /\ CASE e.a = "whole"  -> e.nsamples = NSamp(F) /\ SeqEq(e.valsq, W)
-       [] e.a = "block"  -> e.shape = <<F.C, e.n>> /\ SeqEq(e.valsq, Slice(W, e.start * F.C, (e.start + e.n) * F.C))
+       [] e.a = "block"  -> /\ e.shape = <<F.C, e.n>> /\ SeqEq(e.valsq, Slice(W, e.start * F.C, (e.start + e.n) * F.C))
+                            /\ Abs(e.tstart_off_us - e.start * F.tbin_micro) <= 5           \* the block starts where it was asked to
+       (* a block requested by first-channel frequency: m channels from (descending-order) channel c0, same samples *)
+       [] e.a = "subblock" -> /\ e.shape = <<e.m, e.n>>
+                              /\ SeqEq(e.valsq, [k \in 1..(e.n * e.m) |->
+                                     W[(e.start + (k - 1) \div e.m) * F.C + e.c0 + ((k - 1) % e.m) + 1]])
        [] e.a = "reduce" ->
            (CASE e.op = "collapse" -> SeqEq(e.valsq, DefCollapse(W, F.C, e.start, e.n))
               [] e.op = "chan"     -> SeqEq(e.valsq, DefChan(W, F.C, e.start, e.n, e.ch))
